@@ -252,7 +252,7 @@ PROPS = {
                 "prefix and explode modifiers, invalid prefixes; 30% mutated by dropping / inserting braces, blanks, controls, invalid UTF-8, U+FFFD, non-characters; expressions of 999-1500 variables around the "
                 "regexp package's repetition limit) x 8-12 topics each (the selector itself, expansions by the library for string values and for list / associative values, near misses: a byte dropped or inserted, "
                 "a suffix, another variable name; random strings over the separators): the model must agree with the library on parsed / compiled / every MatchString, the hub (cached and uncached store) must "
-                "answer '*' or equality or the library's fresh answer without panicking, every string-valued expansion must match, and no topic proved not to be an expansion may match. "
+                "answer '*' or equality or the library's fresh answer without panicking, every expansion for string and list values must match, and no topic proved not to be an expansion may match. "
                 "non-trivial = a compilable template with both matching and non-matching topics",
         "trusted": ["Go's regexp engine and the uritemplate library are modelled (Model/UriTemplate.v) and compared differentially, not verified; in the cache theorems the library is any function (Section variable tmatch)",
                     "hashicorp LRU modelled as a map that may forget any entry at any time"],
